@@ -166,7 +166,7 @@ def runC06 (fields : List String) (obs : String) : String × String × String :=
               let region :=
                 if verdict == "ok" then "-"
                 else if b.startsWith "panic:run" then "C06-D3"
-                else if !isErr then (if !hasOp then "C06-D4" else "-")
+                else if !isErr then (if !hasOp && b == "empty" then "C06-D4" else "-")
                 else if working && cls == "operators" && isMD src "a" && isMD src "b" then "C06-D5"
                 else if working && hasSub src "x = " then "C06-D6"
                 else if working then "-"
